@@ -21,7 +21,7 @@ def _gens():
         ('c03-symbols', c03.run_tables, ['-s']),
         ('c08-reloc-tables', c08.run_tables, ['-r']),
         ('c08-reloc-apply', c08.run_apply, ['-r']),
-        ('c09-dynamic', c09.run, ['-d']),
+        ('c09-dynamic', c09.run, ['-d', '-h']),
         ('c14-notes', c14.run_notes, ['-n']),
         ('c15-versions', c15.run_versions, ['-V']),
         ('c20-attributes', c20.run_attrs, ['--arch-specific']),
@@ -170,6 +170,35 @@ def _lc_check(item):
     return fails, matched, repr(sts), data, not (matched or fails)
 
 
+# ---- hex and string dumps -------------------------------------------------------------------------------------
+
+DUMP_CONTENTS = [b'', b'A', bytes(range(0x41, 0x50)), bytes(range(0x41, 0x51)), bytes(range(0x41, 0x52)), bytes(range(33)), b'hello\0world\0', b'\thelp text\0  indented\0tail',
+                 b'\0\0abc\0', b'ab\x7fcd\0\x01\x02xyz\0', b'x' * 100 + b'\0' + b'y' * 3, b'%s %d\n\0\r\nline\0', b'no terminator']
+
+
+def _dump_gen():
+    for ci, content in enumerate(DUMP_CONTENTS):
+        for cls in (64, 32):
+            for le in (True, False):
+                for addr in (0, 0x401230):
+                    for opt in ('-x', '-p'):
+                        yield [ci, cls, le, addr, opt]
+
+
+def _dump_check(desc):
+    from mcx import elfgen as eg
+    ci, cls, le, addr, opt = desc
+    img = eg.Img(cls, le, machine=62 if cls == 64 else 3, etype=2, seed=SEED)
+    img.null()
+    img.add(eg.Sec('.text', 1, data=b'\x90' * 16, flags=6, addr=0x401000, align=16))
+    img.add(eg.Sec('.dumped', 1, data=DUMP_CONTENTS[ci], flags=2 if addr else 0, addr=addr, align=1, file_align=1))
+    img.add_shstrtab()
+    data = img.encode()
+    fails, sts = _compare_all('dump', data, ['.dumped'], [opt + '.dumped'])
+    matched = any(s_ == 'match' for s_ in sts)
+    return fails, matched, repr(sts), data + repr(desc).encode(), not (matched or fails)
+
+
 def spaces(tier, seed):
     global SEED
     SEED = seed
@@ -184,4 +213,8 @@ def spaces(tier, seed):
                   rule='C05 line programs: every header variant x opcode sequences of length <= %d (decodedline); C06 call-frame sections: .debug_frame default and 18 shapes x sequences <= %d, '
                        '~80 .eh_frame shapes x 3 section addresses%s (frames, frames-interp); same outside rule' % ((1, 1, '') if tier == 'quick' else (2, 2, ' and x sequences of length 1 at one corner')))
     b.report_all = True
-    return [a, b]
+    c = ListSpace('generated-dumps', _dump_gen, _dump_check, nparts=16,
+                  rule='-x and -p of one section: 13 contents (empty, 1, 15, 16, 17, 33 bytes, control characters, strings that start with TAB / NUL runs / no terminator, a 100-character string) x class x byte order '
+                       'x section address {0, 0x401230}; same outside rule')
+    c.report_all = True
+    return [a, b, c]
